@@ -9,7 +9,47 @@ import (
 	"strings"
 )
 
-func pick(r *rand.Rand, xs ...string) string { return xs[r.IntN(len(xs))] }
+// pick returns one of xs; when xs is a list of words (qualifier vocabulary) it returns a word of the
+// source-derived dictionary one time in six, in the letter case of the option it replaces.
+func pick(r *rand.Rand, xs ...string) string {
+	x := xs[r.IntN(len(xs))]
+	if len(xs) >= 6 && len(x) >= 2 && isWord(x) && len(dictWords) > 0 && r.IntN(6) == 0 {
+		w := DictWord(r)
+		switch {
+		case x == strings.ToUpper(x):
+			return strings.ToUpper(w)
+		case x == strings.ToLower(x):
+			return strings.ToLower(w)
+		}
+		return w
+	}
+	return x
+}
+
+// pickE is pick with the dictionary of one ecosystem package.
+func pickE(eco string, r *rand.Rand, xs ...string) string {
+	x := xs[r.IntN(len(xs))]
+	if len(xs) >= 6 && len(x) >= 2 && isWord(x) && r.IntN(6) == 0 {
+		w := EcoWord(eco, r)
+		switch {
+		case x == strings.ToUpper(x):
+			return strings.ToUpper(w)
+		case x == strings.ToLower(x):
+			return strings.ToLower(w)
+		}
+		return w
+	}
+	return x
+}
+
+func isWord(s string) bool {
+	for i := 0; i < len(s); i++ {
+		if !(s[i] >= 'a' && s[i] <= 'z' || s[i] >= 'A' && s[i] <= 'Z') {
+			return false
+		}
+	}
+	return s != ""
+}
 func chance(r *rand.Rand, num, den int) bool { return r.IntN(den) < num }
 
 // Boundary is the boundary value set B of the properties.
@@ -27,6 +67,12 @@ type NumOpts struct{ LeadZero, Big bool }
 // Num draws a decimal number string.
 func Num(r *rand.Rand, o NumOpts) string {
 	k := r.IntN(100)
+	if k >= 96 && len(dictNums) > 0 { // a number literal of the source (or a neighbour / power derived from it)
+		n := DictNum(r)
+		if len(n) <= 10 || o.Big {
+			return n
+		}
+	}
 	switch {
 	case k < 55:
 		return smallNums[r.IntN(len(smallNums))]
@@ -143,6 +189,13 @@ func SemverPre(r *rand.Rand, max int) string {
 	ids := make([]string, n)
 	for i := range ids {
 		ids[i] = semverIdents[r.IntN(len(semverIdents))]
+		if r.IntN(10) == 0 && len(dictWords) > 0 {
+			ids[i] = DictWord(r)
+		} else if r.IntN(14) == 0 && len(dictNums) > 0 {
+			if n := DictNum(r); len(n) <= 18 {
+				ids[i] = n
+			}
+		}
 	}
 	return strings.Join(ids, ".")
 }
@@ -176,9 +229,9 @@ func One(eco string, r *rand.Rand) string {
 		}
 		switch eco {
 		case "npm":
-			s = pick(r, "", "", "v", "=", "=v") + s
+			s = pickE(eco, r, "", "", "v", "=", "=v") + s
 		case "golang":
-			s = pick(r, "v", "v", "") + s
+			s = pickE(eco, r, "v", "v", "") + s
 		}
 		return s
 	case "nuget":
@@ -193,15 +246,15 @@ func One(eco string, r *rand.Rand) string {
 		if chance(r, 1, 5) {
 			s += "+" + semverBuild(r)
 		}
-		return pick(r, "", "", "", "v") + s
+		return pickE(eco, r, "", "", "", "v") + s
 	case "conan":
 		c := core(r, 1, 5, lzb)
 		if chance(r, 1, 5) {
 			k := r.IntN(len(c))
-			c[k] = c[k] + pick(r, "a", "b", "rc", "x") // alphanumeric part
+			c[k] = c[k] + pickE(eco, r, "a", "b", "rc", "x") // alphanumeric part
 		}
 		if chance(r, 1, 10) {
-			c[len(c)-1] = pick(r, "a", "b", "beta", "z")
+			c[len(c)-1] = pickE(eco, r, "a", "b", "beta", "z")
 		}
 		s := strings.Join(c, ".")
 		if chance(r, 2, 5) {
@@ -214,33 +267,33 @@ func One(eco string, r *rand.Rand) string {
 	case "apache":
 		s := strings.Join(core(r, 3, 3, lz), ".")
 		if chance(r, 3, 5) {
-			q := pick(r, "alpha", "beta", "M", "milestone", "RC", "rc", "SNAPSHOT", "dev", "ALPHA", "Beta", "m", "snapshot", "foo", "final", "GA")
+			q := pickE(eco, r, "alpha", "beta", "M", "milestone", "RC", "rc", "SNAPSHOT", "dev", "ALPHA", "Beta", "m", "snapshot", "foo", "final", "GA")
 			s += "-" + q
 			switch r.IntN(4) {
 			case 0:
 				s += Num(r, lz)
 			case 1:
-				s += "v2023041" + pick(r, "5", "6")
+				s += "v2023041" + pickE(eco, r, "5", "6")
 			}
 		}
 		return s
 	case "github":
 		if chance(r, 1, 6) {
-			return pick(r, "", "v") + pick(r, "2023", "2024", "1999", "2025") + "." + pick(r, "1", "01", "12", "6", "06") + "." + pick(r, "1", "01", "15", "31", "28")
+			return pickE(eco, r, "", "v") + pickE(eco, r, "2023", "2024", "1999", "2025") + "." + pickE(eco, r, "1", "01", "12", "6", "06") + "." + pickE(eco, r, "1", "01", "15", "31", "28")
 		}
-		s := pick(r, "", "v", "release-", "rel-") + strings.Join(core(r, 3, 3, lz), ".")
+		s := pickE(eco, r, "", "v", "release-", "rel-") + strings.Join(core(r, 3, 3, lz), ".")
 		if chance(r, 3, 5) {
-			q := mixCase(r, pick(r, "alpha", "beta", "rc", "dev", "snapshot", "foo", "pre", "m"))
-			s += pick(r, "-", ".") + q
+			q := mixCase(r, pickE(eco, r, "alpha", "beta", "rc", "dev", "snapshot", "foo", "pre", "m"))
+			s += pickE(eco, r, "-", ".") + q
 			if chance(r, 1, 2) {
-				s += pick(r, "", ".") + Num(r, lz)
+				s += pickE(eco, r, "", ".") + Num(r, lz)
 			}
 		}
 		return s
 	case "mattermost":
-		s := pick(r, "", "v") + strings.Join(core(r, 3, 3, NumOpts{}), ".")
+		s := pickE(eco, r, "", "v") + strings.Join(core(r, 3, 3, NumOpts{}), ".")
 		if chance(r, 1, 2) {
-			s += "-" + pick(r, "rc", "esr")
+			s += "-" + pickE(eco, r, "rc", "esr")
 			if chance(r, 2, 3) {
 				s += Num(r, lz)
 			}
@@ -250,16 +303,16 @@ func One(eco string, r *rand.Rand) string {
 		c := core(r, 2, 5, lzb)
 		s := c[0]
 		for _, x := range c[1:] {
-			s += pick(r, ".", ".", "-") + x
+			s += pickE(eco, r, ".", ".", "-") + x
 		}
 		return s
 	case "gentoo":
 		s := strings.Join(core(r, 1, 5, lz), ".")
 		if chance(r, 1, 4) {
-			s += pick(r, "a", "b", "z", "A", "k")
+			s += pickE(eco, r, "a", "b", "z", "A", "k")
 		}
 		if chance(r, 1, 2) {
-			s += "_" + pick(r, "alpha", "beta", "pre", "rc", "p")
+			s += "_" + pickE(eco, r, "alpha", "beta", "pre", "rc", "p")
 			if chance(r, 2, 3) {
 				s += Num(r, lz)
 			}
@@ -270,20 +323,20 @@ func One(eco string, r *rand.Rand) string {
 		return s
 	case "alpine":
 		if chance(r, 1, 12) { // string-sort fallback forms
-			return pick(r, "1.0bc", "5xx", "1.0_foo-bar", "1..2", "1.0-r", "abc1", "1.0_", "1.0__p1", "1.0A", "v1.2", "1.0-rc1", "10xx", "9z9")
+			return pickE(eco, r, "1.0bc", "5xx", "1.0_foo-bar", "1..2", "1.0-r", "abc1", "1.0_", "1.0__p1", "1.0A", "v1.2", "1.0-rc1", "10xx", "9z9")
 		}
 		s := strings.Join(core(r, 1, 5, lzb), ".")
 		if chance(r, 1, 4) {
-			s += pick(r, "a", "b", "z", "k")
+			s += pickE(eco, r, "a", "b", "z", "k")
 		}
 		for k := r.IntN(4); k > 0; k-- {
-			s += "_" + pick(r, "alpha", "beta", "pre", "rc", "cvs", "svn", "git", "hg", "p", "p", "rc", "foo", "zzz")
+			s += "_" + pickE(eco, r, "alpha", "beta", "pre", "rc", "cvs", "svn", "git", "hg", "p", "p", "rc", "foo", "zzz")
 			if chance(r, 2, 3) {
 				s += Num(r, lz)
 			}
 		}
 		if chance(r, 1, 10) {
-			s += "~" + pick(r, "abc123", "0", "deadbeef", "f")
+			s += "~" + pickE(eco, r, "abc123", "0", "deadbeef", "f")
 		}
 		if chance(r, 1, 3) {
 			s += "-r" + Num(r, lz)
@@ -292,30 +345,30 @@ func One(eco string, r *rand.Rand) string {
 	case "alpm":
 		s := ""
 		if chance(r, 1, 6) {
-			s = pick(r, "0:", "1:", "2:", "01:")
+			s = pickE(eco, r, "0:", "1:", "2:", "01:")
 		}
 		n := 1 + r.IntN(5)
 		for i := 0; i < n; i++ {
 			if i > 0 {
-				s += pick(r, ".", ".", ".", "_", "+", "", "")
+				s += pickE(eco, r, ".", ".", ".", "_", "+", "", "")
 			}
 			if chance(r, 3, 4) {
 				s += Num(r, lzb)
 			} else {
-				s += pick(r, "a", "b", "alpha", "beta", "rc", "pre", "p", "git", "r")
+				s += pickE(eco, r, "a", "b", "alpha", "beta", "rc", "pre", "p", "git", "r")
 			}
 		}
 		if !strings.ContainsAny(s[len(s)-1:], "0123456789abcdefghijklmnopqrstuvwxyz") {
 			s += "1"
 		}
 		if chance(r, 1, 2) {
-			s += "-" + pick(r, "1", "2", "3", "10", "0", "01")
+			s += "-" + pickE(eco, r, "1", "2", "3", "10", "0", "01")
 		}
 		return s
 	case "debian", "rpm":
 		s := ""
 		if chance(r, 1, 6) {
-			s = pick(r, "0:", "1:", "2:", "01:")
+			s = pickE(eco, r, "0:", "1:", "2:", "01:")
 		}
 		seps := []string{".", ".", ".", "+", "~", "~~", ""}
 		if eco == "rpm" {
@@ -331,13 +384,13 @@ func One(eco string, r *rand.Rand) string {
 				if first && i == 0 || chance(r, 2, 3) {
 					p += Num(r, lzb)
 				} else {
-					p += pick(r, "a", "b", "rc", "A", "z", "Z", "alpha", "beta", "git", "dfsg", "ubuntu", "el", "fc")
+					p += pickE(eco, r, "a", "b", "rc", "A", "z", "Z", "alpha", "beta", "git", "dfsg", "ubuntu", "el", "fc")
 				}
 			}
 			if chance(r, 1, 12) {
-				p += pick(r, "~", "+", ".")
+				p += pickE(eco, r, "~", "+", ".")
 				if eco == "rpm" {
-					p += pick(r, "", "^", "~")
+					p += pickE(eco, r, "", "^", "~")
 				}
 			}
 			return p
@@ -353,7 +406,7 @@ func One(eco string, r *rand.Rand) string {
 	case "gem":
 		s := strings.Join(core(r, 1, 5, lzb), ".")
 		for k := r.IntN(3); k > 0; k-- {
-			w := pick(r, "rc", "pre", "alpha", "beta", "a", "b", "dev", "preview", "RC", "Beta")
+			w := pickE(eco, r, "rc", "pre", "alpha", "beta", "a", "b", "dev", "preview", "RC", "Beta")
 			switch r.IntN(4) {
 			case 0:
 				s += "." + w
@@ -364,14 +417,14 @@ func One(eco string, r *rand.Rand) string {
 			case 3:
 				s += "-" + w
 				if chance(r, 1, 2) {
-					s += pick(r, ".", "") + Num(r, lz)
+					s += pickE(eco, r, ".", "") + Num(r, lz)
 				}
 			}
 		}
 		if chance(r, 1, 10) {
-			s += "+" + pick(r, "build", "1", "b.2")
+			s += "+" + pickE(eco, r, "build", "1", "b.2")
 		}
-		return pick(r, "", "", "", "v") + s
+		return pickE(eco, r, "", "", "", "v") + s
 	case "maven":
 		s := strings.Join(core(r, 1, 4, lzb), ".")
 		switch r.IntN(5) {
@@ -380,10 +433,10 @@ func One(eco string, r *rand.Rand) string {
 		case 1:
 			return s + "-" + Num(r, lz)
 		}
-		q := pick(r, "alpha", "beta", "milestone", "rc", "cr", "snapshot", "ga", "final", "release", "sp", "foo", "bar", "xyz", "a", "b", "m")
+		q := pickE(eco, r, "alpha", "beta", "milestone", "rc", "cr", "snapshot", "ga", "final", "release", "sp", "foo", "bar", "xyz", "a", "b", "m")
 		single := len(q) == 1
 		q = mixCase(r, q)
-		sep := pick(r, ".", "-")
+		sep := pickE(eco, r, ".", "-")
 		switch r.IntN(4) {
 		case 0:
 			if single {
@@ -406,37 +459,37 @@ func One(eco string, r *rand.Rand) string {
 	case "pypi":
 		s := ""
 		if chance(r, 1, 6) {
-			s = pick(r, "0!", "1!", "2!")
+			s = pickE(eco, r, "0!", "1!", "2!")
 		}
 		s += strings.Join(core(r, 1, 5, lzb), ".")
-		dot := func() string { return pick(r, "", ".") }
+		dot := func() string { return pickE(eco, r, "", ".") }
 		if chance(r, 1, 2) {
-			s += dot() + pick(r, "a", "b", "rc", "alpha", "beta", "c") + Num(r, lz)
+			s += dot() + pickE(eco, r, "a", "b", "rc", "alpha", "beta", "c") + Num(r, lz)
 		}
 		if chance(r, 1, 3) {
-			s += dot() + pick(r, "post", "rev", "r") + Num(r, lz)
+			s += dot() + pickE(eco, r, "post", "rev", "r") + Num(r, lz)
 		}
 		if chance(r, 1, 3) {
 			s += dot() + "dev" + Num(r, lz)
 		}
 		if chance(r, 1, 4) {
-			s += "+" + pick(r, "abc", "1", "2", "10", "abc.1", "abc-2", "1.abc", "ABC", "a_b", "01", "1.0", "ubuntu.1")
+			s += "+" + pickE(eco, r, "abc", "1", "2", "10", "abc.1", "abc-2", "1.abc", "ABC", "a_b", "01", "1.0", "ubuntu.1")
 		}
 		return s
 	case "composer":
 		if chance(r, 1, 12) {
-			return pick(r, "dev-main", "dev-master", "dev-feature/x", "main", "master", "feature-foo", "1.x-dev", "dev-fix", "release/1.0")
+			return pickE(eco, r, "dev-main", "dev-master", "dev-feature/x", "main", "master", "feature-foo", "1.x-dev", "dev-fix", "release/1.0")
 		}
-		s := pick(r, "", "", "v") + strings.Join(core(r, 1, 4, lz), ".")
+		s := pickE(eco, r, "", "", "v") + strings.Join(core(r, 1, 4, lz), ".")
 		switch r.IntN(5) {
 		case 0, 1:
 		case 2:
-			s += "-" + pick(r, "alpha", "beta", "RC", "a", "b", "rc", "dev", "patch")
+			s += "-" + pickE(eco, r, "alpha", "beta", "RC", "a", "b", "rc", "dev", "patch")
 			if chance(r, 2, 3) {
-				s += pick(r, "", ".") + Num(r, lz)
+				s += pickE(eco, r, "", ".") + Num(r, lz)
 			}
 		case 3:
-			s += pick(r, "alpha", "beta", "RC", "a", "b", "rc", "dev", "pl") + pick(r, "", Num(r, lz))
+			s += pickE(eco, r, "alpha", "beta", "RC", "a", "b", "rc", "dev", "pl") + pickE(eco, r, "", Num(r, lz))
 		case 4:
 			s += "+" + semverBuild(r)
 		}
@@ -728,6 +781,40 @@ func Cluster(eco string, r *rand.Rand) []string {
 	}
 	if chance(r, 1, 6) {
 		out = append(out, Dense(eco, base, r)...)
+	}
+	// source-dictionary family: numbers and words that are literals of THIS ecosystem's package, in the number
+	// slot of every marker, as a component, and as a qualifier word
+	if chance(r, 1, 3) && (len(ecoNums[eco]) > 0 || len(dictNums) > 0) {
+		for k := 0; k < 4; k++ {
+			n := EcoNum(eco, r)
+			if len(n) > 12 {
+				continue
+			}
+			i := r.IntN(len(c))
+			d := append([]string{}, c...)
+			d[i] = n
+			out = append(out, strings.Join(d, "."))
+			for _, m := range append(append([]string{}, ms.Pre...), ms.Post...) {
+				t := strings.TrimRight(m, "0123456789")
+				if t != "" && chance(r, 1, 3) {
+					out = append(out, base+t+n, base+t+decInc(n))
+				}
+			}
+		}
+		// separators: the first characters of this ecosystem's own marker spellings
+		seps := []string{"-", "."}
+		for _, m := range append(append([]string{}, ms.Pre...), ms.Post...) {
+			if m != "" && !(m[0] >= 'a' && m[0] <= 'z' || m[0] >= 'A' && m[0] <= 'Z' || m[0] >= '0' && m[0] <= '9') {
+				seps = append(seps, m[:1])
+			} else {
+				seps = append(seps, "")
+			}
+		}
+		for k := 0; k < 4; k++ {
+			w := EcoWord(eco, r)
+			sep := seps[r.IntN(len(seps))]
+			out = append(out, base+sep+w, base+sep+w+[]string{"1", "2", ".1", "-1"}[r.IntN(4)], base+sep+strings.ToUpper(w))
+		}
 	}
 	// ecosystem-specific extras around the same base
 	for k := 0; k < 6; k++ {
